@@ -258,6 +258,13 @@ func EnumPDFTokens(img []byte) []Fault {
 			} else {
 				i++
 			}
+		case c == '[' && bytes.IndexByte(img[i:sim.MinInt(n, i+300)], ']') > 0:
+			// an array with its brackets the wrong way round
+			e := i + bytes.IndexByte(img[i:sim.MinInt(n, i+300)], ']')
+			out = append(out, Fault{Layer: "token", Kind: "replace", A: int64(i), B: int64(e + 1 - i), S: "]" + string(img[i+1:e]) + "["})
+			out = append(out, Fault{Layer: "token", Kind: "replace", A: int64(i), B: 1, S: ""}, Fault{Layer: "token", Kind: "replace", A: int64(i), B: 1, S: "]"},
+				Fault{Layer: "token", Kind: "replace", A: int64(i), B: 1, S: "[["})
+			i++
 		case c == '[' || c == ']' || c == '(' || c == ')' || c == '<' || c == '>':
 			partner := map[byte]string{'[': "]", ']': "[", '(': ")", ')': "(", '<': ">", '>': "<"}[c]
 			out = append(out, Fault{Layer: "token", Kind: "replace", A: int64(i), B: 1, S: ""}, Fault{Layer: "token", Kind: "replace", A: int64(i), B: 1, S: partner},
